@@ -3,6 +3,7 @@ From Coq Require Import List Arith Bool ZArith Permutation String.
 From KV Require Import Base.Sx Gen.Generated Model.LazyInit Proofs.LazyInitP Model.TaskGraph Proofs.TaskGraphP
                        Model.Guarded Proofs.GuardedP Model.SharedSites Proofs.SharedSitesP Model.LockOrder Proofs.LockOrderP Proofs.ReqProgP
                        Model.PerCall Proofs.PerCallP.
+From KV Require Model.ScratchRace Proofs.ScratchRaceP.
 Import ListNotations.
 Close Scope Z_scope.
 Open Scope nat_scope.
@@ -559,3 +560,53 @@ Theorem C20_retry_budget_example :
   p_next (r_pool (b_r (bc_st c))) = 2.
 Proof. exact budget_example. Qed.
 Print Assumptions C20_retry_budget_example.
+
+(* ================================================================================================================ *)
+(* round 4: what the tasks of one graph are handed (shared, mutable, written = data race at any granularity)         *)
+Theorem C20_block_buffers_race_free :
+  forall (V : Type) (bind : nat -> nat -> ScratchRace.buf) (prog : nat -> list (ScratchRace.op V)),
+    ScratchRace.race_free V bind prog -> forall m0 sched t,
+    let c := ScratchRace.exec V bind prog m0 sched in
+    let r := ScratchRace.solo V bind prog m0 t (ScratchRaceP.count t sched) in
+    ScratchRace.c_th V c t = snd r /\ forall p, ScratchRace.touches V (prog t) p = true -> forall i, ScratchRace.c_mem V c (bind t p) i = fst r (bind t p) i.
+Proof. exact ScratchRaceP.race_free_solo. Qed.
+Print Assumptions C20_block_buffers_race_free.
+Theorem C20_graph_binding_race_free : forall V (bound : nat -> bool) (prog : nat -> list (ScratchRace.op V)),
+  (forall t p, ScratchRace.writes V (prog t) p = true -> bound p = false) -> ScratchRace.race_free V (ScratchRace.bind_graph bound) prog.
+Proof. exact ScratchRaceP.bind_graph_race_free. Qed.
+Print Assumptions C20_graph_binding_race_free.
+Theorem C20_block_args_read_only : ScratchRace.block_calls_ok c20_block_calls = true.
+Proof. exact ScratchRaceP.block_args_read_only. Qed.
+Print Assumptions C20_block_args_read_only.
+Theorem C20_block_tasks_any_interleaving : forall V c (prog : nat -> list (ScratchRace.op V)),
+  In c c20_block_calls -> (forall t, ScratchRace.respects c (prog t)) ->
+  forall m0 sched t,
+    let bind := ScratchRace.bind_graph (ScratchRace.call_bound c) in
+    let cf := ScratchRace.exec V bind prog m0 sched in
+    let r := ScratchRace.solo V bind prog m0 t (ScratchRaceP.count t sched) in
+    ScratchRace.c_th V cf t = snd r /\ forall p, ScratchRace.touches V (prog t) p = true -> forall i, ScratchRace.c_mem V cf (bind t p) i = fst r (bind t p) i.
+Proof. exact ScratchRaceP.block_tasks_any_interleaving. Qed.
+Print Assumptions C20_block_tasks_any_interleaving.
+Theorem C20_scale_weights_call_listed :
+  exists c, In c c20_block_calls /\ fst c = "vis_flags_weights.py:_scale_weights:blockwise:weight_power_scale"%string /\
+            map fst (snd c) = ["vis"; "weights"; "auto_indices"; "index1"; "index2"; "divide"]%string.
+Proof. exact ScratchRaceP.scale_weights_call_listed. Qed.
+Print Assumptions C20_scale_weights_call_listed.
+Theorem C20_kernel_written_params :
+  c20_kernel_written_params =
+  [("vis_flags_weights.py:weight_power_scale", ["out"]); ("applycal.py:_correction_inputs_to_corrprods", ["g_per_cp"]);
+   ("applycal.py:apply_vis_correction", []); ("applycal.py:apply_weights_correction", []);
+   ("applycal.py:apply_flags_correction", [])]%string.
+Proof. exact ScratchRaceP.kernel_written_params. Qed.
+Print Assumptions C20_kernel_written_params.
+Theorem C20_shared_scratch_refuted :
+  exists sched, ScratchRaceP.ex_out (fun p => p =? 2) sched 0 <> ScratchRaceP.ex_out (fun p => p =? 2) (filter (fun t => t =? 0) sched) 0 /\
+                ScratchRaceP.ex_out (fun _ => false) sched 0 = ScratchRaceP.ex_out (fun _ => false) (filter (fun t => t =? 0) sched) 0.
+Proof. exact ScratchRaceP.shared_scratch_refuted. Qed.
+Print Assumptions C20_shared_scratch_refuted.
+Example C20_private_scratch_example :
+  let sched := repeat 0 4 ++ repeat 1 4 ++ repeat 0 12 ++ repeat 1 12 in
+  ScratchRaceP.ex_out (fun _ => false) sched 0 = [4; 6; 9]%Z /\ ScratchRaceP.ex_out (fun _ => false) sched 1 = [25; 35; 49]%Z /\
+  ScratchRaceP.ex_out (fun p => p =? 2) sched 0 = [25; 35; 49]%Z.
+Proof. exact ScratchRaceP.private_scratch_example. Qed.
+Print Assumptions C20_private_scratch_example.
